@@ -54,7 +54,7 @@ m = {
            "baseline_off_cmd": "cd /repo && /venv/bin/python -m pytest -ra -q -p no:cacheprovider --timeout=900 --continue-on-collection-errors",
            "source_commits": [], "add_only": True},
  "engines": [{"name": "sigstat", "path": "/verif/sigstat", "serves_properties": [p['id'] for p in props],
-              "kind_free_text": "repository-specific static analyser (stdlib ast only): resolved program model, constant folder, statement CFG with condition facts and exception edges, "
+              "kind_free_text": "repository-specific static analyser (stdlib ast only): load-time normalisation (pathlib -> os.path, expansion of helpers that are not in the baseline function inventory, equivalent spellings folded), resolved program model, constant folder, statement CFG with condition facts (propositional entailment, infeasible-path pruning) and exception edges, "
                                 "call resolution with receiver typing, file-system effect summaries, exception may-raise sets; rules per property in sigstat/rules/"}],
  "checks": checks,
  "not_applicable": [],
